@@ -5,10 +5,14 @@ import MayVerif.Core.Trace
 import MayVerif.Model.Sync.MutexReplay
 import MayVerif.Model.Sync.SemReplay
 import MayVerif.Model.Sync.SyncFlagReplay
+import MayVerif.Model.Queue.MpscReplay
+import MayVerif.Model.Queue.SpscReplay
 open MayVerif
 
 def machines : List (String × Machine) := [
   ("mutex", MayVerif.Mutex.machine),
   ("sem", MayVerif.Sem.machine),
-  ("syncflag", MayVerif.SyncFlag.machine)
+  ("syncflag", MayVerif.SyncFlag.machine),
+  ("mq_mpsc", MayVerif.Mpsc.machine),
+  ("mq_spsc", MayVerif.Spsc.machine)
 ]
